@@ -58,6 +58,7 @@ ZeroAll   == {"none", "a", "b"}
 ThirdNull == {Null}
 ThirdSome == {Null} \cup {Obj(c[1], c[2], ValC) : c \in ClsMain}
 ScalarsAll == {1, 2, 3}
+ScalarsTyped == 1..17         \* every Python / numpy scalar type of the table in C16Defs
 ScalarsOne == {3}
 OpsAll == {"add", "sub", "mul"}
 TargetsAll == Names
@@ -108,7 +109,7 @@ BinOS(r, x, s, op) ==
          new == Obj(X.cls, X.ann, ABin(op, X.val, AConst(ScalarVal(s))))
      IN /\ X # Null /\ Tangelo(X.cls)
         /\ Bound1(new.val)
-        /\ Advance(Rec("bin", op, r, x, 0, "", s, "ok", FALSE, new), Write(r, new))
+        /\ Advance(Rec("bin", op, r, x, 0, "", s, ScalarOut(s), FALSE, new), Write(r, new))
 
 BinSO(r, s, y, op) ==
   /\ d < MaxDepth
@@ -116,7 +117,7 @@ BinSO(r, s, y, op) ==
          new == Obj(Y.cls, Y.ann, ABin(op, AConst(ScalarVal(s)), Y.val))
      IN /\ Y # Null /\ Tangelo(Y.cls)
         /\ Bound1(new.val)
-        /\ Advance(Rec("bin", op, r, "", s, y, 0, "ok", FALSE, new), Write(r, new))
+        /\ Advance(Rec("bin", op, r, "", s, y, 0, ScalarOut(s), FALSE, new), Write(r, new))
 
 AugOO(x, y, op) ==
   /\ d < MaxDepth
@@ -139,7 +140,7 @@ AugOS(x, s, op) ==
          new == Obj(X.cls, X.ann, ABin(op, X.val, AConst(ScalarVal(s))))
      IN /\ X # Null /\ Tangelo(X.cls)
         /\ Bound1(new.val)
-        /\ Advance(Rec("aug", op, x, x, 0, "", s, "ok", FALSE, new), Write(x, new))
+        /\ Advance(Rec("aug", op, x, x, 0, "", s, ScalarOut(s), FALSE, new), Write(x, new))
 
 EqStep(x, y) ==
   /\ d < MaxDepth
